@@ -79,12 +79,15 @@ class GenRun:
         env = dict(GOENV)
         if env_extra:
             env.update(env_extra)
+        if tuple(patterns) == ("./...",):
+            self._earlier_revision(gv, env)
         p = run([gv] + list(patterns), cwd=self.moddir, env=env, timeout=1800)
         self.gen_status = p.returncode
         self.gen_log = (p.stdout or "")[-4000:] + (p.stderr or "")[-4000:]
-        # twice more over the tree that now holds generated files (go generate is re-run while a package evolves): first with every
-        # second output removed, then with the others removed, so that each file is also produced next to existing validators
-        # of its neighbours and is also written over a longer stale version of itself.  What is translated, compiled and driven below is the output of these regenerations.  Packages whose
+        # once more over the tree that now holds generated files (go generate is re-run while a package evolves): every second
+        # output is removed and the others are extended by a stale tail, so that files are produced next to existing validators
+        # of their neighbours, or written over a longer stale version of themselves (all of them were already written over the
+        # output of an earlier revision, see _earlier_revision).  What is translated, compiled and driven below is the output of these regenerations.  Packages whose
         # first output does not compile (the open findings D8/D9) cannot be analysed again and are left as they are.
         if self.gen_status == 0 and tuple(patterns) == ("./...",):
             ok, errs = self.go_vet_build()
@@ -95,7 +98,7 @@ class GenRun:
                     return {os.path.join(pk, f): open(os.path.join(self.moddir, pk, f), "rb").read()
                             for pk in pkgs for f in os.listdir(os.path.join(self.moddir, pk)) if f.endswith("_validator.go")}
                 first = snap()
-                for phase in (1, 0):
+                for phase in (1,):
                     outs = sorted(os.path.join(self.moddir, pk, f) for pk in pkgs for f in os.listdir(os.path.join(self.moddir, pk)) if f.endswith("_validator.go"))
                     for k, f in enumerate(outs):
                         if k % 2 == phase:
@@ -113,6 +116,42 @@ class GenRun:
                     now = snap()
                     self.regen_diffs = [(k, first.get(k), now.get(k)) for k in sorted(set(first) | set(now)) if first.get(k) != now.get(k)]
         return True
+
+    PERTURB = re.compile(rb"^(\s*//\s*\+?govalid:(?:gt|gte|lt|lte|minlength|maxlength|length|minitems|maxitems)=)([1-9][0-9]{0,3}|0)(\s*)$", re.M)
+
+    def _earlier_revision(self, gv, env):
+        """The tree first holds the output of an EARLIER revision of the sources (every small decimal parameter one higher);
+        then the revision under test is put back with an old modification time (as a checkout, a backup restore or `cp -p`
+        leaves it).  The generator must produce the files of the sources it is given, whatever is on disk and however old
+        the sources look.  Outputs of the earlier revision that do not compile are removed (such a package cannot be analysed)."""
+        saved = {}
+        for sc in self.corpus["scenarios"]:
+            d = os.path.join(self.moddir, sc["pkg"])
+            if not os.path.isdir(d):
+                continue
+            for f in os.listdir(d):
+                if f.endswith(".go") and not f.endswith("_validator.go"):
+                    path = os.path.join(d, f)
+                    b = open(path, "rb").read()
+                    nb = self.PERTURB.sub(lambda m: m.group(1) + str(int(m.group(2)) + 1).encode() + m.group(3), b)
+                    if nb != b:
+                        saved[path] = b
+                        open(path, "wb").write(nb)
+        self.earlier_revision_files = len(saved)
+        if not saved:
+            return
+        run([gv, "./..."], cwd=self.moddir, env=env, timeout=1800)
+        ok, errs = self.go_vet_build()
+        for pk in (errs if errs else ([] if ok else [sc["pkg"] for sc in self.corpus["scenarios"]])):
+            d = os.path.join(self.moddir, pk)
+            if os.path.isdir(d):
+                for f in os.listdir(d):
+                    if f.endswith("_validator.go"):
+                        os.remove(os.path.join(d, f))
+        old = 978307200     # 2001-01-01
+        for path, b in saved.items():
+            open(path, "wb").write(b)
+            os.utime(path, (old, old))
 
     def translate(self):
         self.run_v = os.path.join(self.dir, "Run.v")
